@@ -1,0 +1,53 @@
+//go:build verif
+
+package cdi
+
+// Verification hooks, compiled in only with the "verif" build tag.
+
+// VerifHook, when set, is called at named points of the code. It must be
+// set before the code it observes runs.
+var VerifHook func(point string, args ...interface{})
+
+func verifPoint(point string, args ...interface{}) {
+	if h := VerifHook; h != nil {
+		h(point, args...)
+	}
+}
+
+// VerifIndex renders the state of the Cache. It does not take the Cache
+// lock: it is meant to be called from a hook at a point where the lock is
+// already held.
+func VerifIndex(c *Cache) map[string]interface{} {
+	devices := map[string]interface{}{}
+	for name, d := range c.devices {
+		devices[name] = map[string]interface{}{"path": d.GetSpec().GetPath(), "priority": d.GetSpec().GetPriority()}
+	}
+	specs := []interface{}{}
+	for vendor, list := range c.specs {
+		for _, s := range list {
+			specs = append(specs, map[string]interface{}{"vendor": vendor, "class": s.GetClass(), "path": s.GetPath(), "priority": s.GetPriority()})
+		}
+	}
+	errs := []string{}
+	for path := range c.errors {
+		errs = append(errs, path)
+	}
+	dirErrs := []string{}
+	for dir := range c.dirErrors {
+		dirErrs = append(dirErrs, dir)
+	}
+	tracked := map[string]bool{}
+	for dir, ok := range c.watch.tracked {
+		tracked[dir] = ok
+	}
+	return map[string]interface{}{
+		"dirs":        append([]string{}, c.specDirs...),
+		"autoRefresh": c.autoRefresh,
+		"devices":     devices,
+		"specs":       specs,
+		"errors":      errs,
+		"dirErrors":   dirErrs,
+		"tracked":     tracked,
+		"watcher":     c.watch.watcher != nil,
+	}
+}
